@@ -213,7 +213,8 @@ def server_case(flavour, resume, lease, publisher, raising, frame_kind, part):
 
 def make_units(tier):
     units = []
-    for flavour in ('tcp', 'msg'):
+    from mc.links import ALL_FLAVOURS
+    for flavour in ALL_FLAVOURS:
         for lease in (False, True):
             units.append({'kind': 'fidelity', 'flavour': flavour, 'lease': lease, 'tier': tier})
         units.append({'kind': 'server', 'flavour': flavour})
@@ -221,7 +222,7 @@ def make_units(tier):
     kind_sets = [('rr',), ('fnf',), ('push',), ('stream',), ('channel',), ('rr', 'stream'), ('push', 'fnf')]
     if tier == 'thorough':
         kind_sets += [('channel', 'rr'), ('stream', 'fnf', 'rr')]
-    for flavour in ('tcp', 'msg'):
+    for flavour in ALL_FLAVOURS:
         for gate in (False, True):
             for late in (False, True):
                 for kinds in kind_sets:
